@@ -202,7 +202,9 @@ def make_arg(name, kind):
         k, v = kind[5:].split('->')
         ks = {'int': I, 'name': M.Name, 'fork': Fork}[k]
         vs = {'int': I, 'bool': B, 'name': M.Name}[v]
-        return DictV(z3.Array(name + '_has', ks, B), z3.Array(name + '_val', ks, vs), v, k)
+        dv = DictV(z3.Array(name + '_has', ks, B), z3.Array(name + '_val', ks, vs), v, k)
+        dv.extra = {'all': z3.Int(name + '_all')}       # string keys that some level-keyed dicts carry besides the levels
+        return dv
     if kind.startswith('set:'):
         k = kind[4:]
         ks = {'int': I, 'name': M.Name}[k]
@@ -447,39 +449,43 @@ def to_smt2(hyps, goal):
 def _solve(job, fallbacks=True):
     name, smt2, timeout = job
     t0 = time.time()
+    scale = max(1, timeout // TIMEOUT_MS)
+
+    def z3_attempt(label, opts, tmo):
+        s = Solver()
+        for k, v in opts.items():
+            s.set(k, v)
+        s.set('timeout', tmo)
+        s.from_string(smt2)
+        r = str(s.check())
+        return r, (s.reason_unknown() if r == 'unknown' else ''), label
+
+    def cli_attempt(tool, cmd, fb):
+        try:
+            pr = subprocess.run(cmd, input=smt2, capture_output=True, text=True, timeout=fb / 1000 + 5)
+            out = pr.stdout.strip().splitlines()
+            if out and out[0].strip() == 'unsat':
+                return 'unsat', '', tool
+        except Exception:  # noqa
+            pass
+        return 'unknown', f'{tool}: no answer in its budget', tool
     try:
-        # portfolio on the same SMT-LIB text: z3's default configuration with a short budget, then E-matching only (no auto
-        # configuration, no model-based instantiation: the obligations carry explicit triggers), then the default with another seed
+        # portfolio on the same SMT-LIB text, cheapest first: z3's default configuration with a short budget; E-matching only (no
+        # auto configuration, no model-based instantiation: the obligations carry explicit triggers); cvc5; z3 with another seed
+        # and the full budget; the z3 4.8 command-line binary
+        fb = min(timeout, scale * FALLBACK_MS)
+        attempts = [lambda: z3_attempt('z3-api', {}, min(timeout, scale * PRIMARY_MS)),
+                    lambda: z3_attempt('z3-api[ematching]', {'auto_config': False, 'smt.mbqi': False}, min(timeout, 2 * scale * PRIMARY_MS))]
+        if fallbacks:
+            attempts.append(lambda: cli_attempt('cvc5', ['/usr/bin/cvc5', '--lang=smt2', f'--tlimit={fb}', '--full-saturate-quant', '-'], fb))
+        attempts.append(lambda: z3_attempt('z3-api[seed]', {'smt.random_seed': 7}, timeout))
+        if fallbacks:
+            attempts.append(lambda: cli_attempt('z3-4.8-cli', ['/usr/bin/z3', '-smt2', f'-T:{max(1, fb // 1000)}', '-in'], fb))
         res, reason, back = 'unknown', '', 'z3-api'
-        scale = max(1, timeout // TIMEOUT_MS)
-        for label, opts, tmo in (('z3-api', {}, min(timeout, scale * PRIMARY_MS)),
-                                 ('z3-api[ematching]', {'auto_config': False, 'smt.mbqi': False}, min(timeout, 2 * scale * PRIMARY_MS)),
-                                 ('z3-api[seed]', {'smt.random_seed': 7}, timeout)):
-            s = z3.SolverFor('ALL') if False else Solver()
-            for k, v in opts.items():
-                s.set(k, v)
-            s.set('timeout', tmo)
-            s.from_string(smt2)
-            r = s.check()
-            res = str(r)
-            reason = s.reason_unknown() if res == 'unknown' else ''
-            back = label
+        for att in attempts:
+            res, reason, back = att()
             if res == 'unsat':
                 break
-        if res != 'unsat' and fallbacks:
-            # fall-backs: cvc5 and the z3 CLI (different version) on the same SMT-LIB text
-            fb = min(timeout, max(1, timeout // TIMEOUT_MS) * FALLBACK_MS)
-            for tool, cmd in (('cvc5', ['/usr/bin/cvc5', '--lang=smt2', f'--tlimit={fb}', '--full-saturate-quant']),
-                              ('z3-4.8-cli', ['/usr/bin/z3', '-smt2', f'-T:{max(1, fb // 1000)}', '-in'])):
-                try:
-                    pr = subprocess.run(cmd + ([] if tool != 'cvc5' else ['-']), input=smt2, capture_output=True, text=True,
-                                        timeout=fb / 1000 + 5)
-                    out = pr.stdout.strip().splitlines()
-                    if out and out[0].strip() == 'unsat':
-                        res, back = 'unsat', tool
-                        break
-                except Exception:  # noqa
-                    pass
         return name, res, back, time.time() - t0, reason
     except Exception as e:  # noqa
         return name, 'error', 'z3-api', time.time() - t0, repr(e)[:300]
